@@ -55,6 +55,18 @@ func HarnessC18Write(op, oneShot, plenIdx int) {
 	m.SetPCRPID(0x100)
 	plen := []int{170, 177, 169, 120, 168, 400}[plenIdx] // last packet needs 0, 1, 2, many, ... stuffing bytes
 	d, _ := vMuxData(0x100, plenIdx%2, 1, plen)
+	// op 3: WritePacket with an adaptation field carrying every optional part (PCR, OPCR, splicing point, private data,
+	// extension with legal time window, piecewise rate and seamless splice), 2 stuffing bytes and a payload
+	fullPacket := func() *Packet {
+		mp := &mPacket{hasAF: true, hasPayload: true, pid: 0x100}
+		mp.af = vModelAF(31, 7, 3, 0)
+		mp.af.stuffing = 2
+		mp.payload = make([]byte, 184-1-refAFLen(&mp.af))
+		for i := range mp.payload {
+			mp.payload[i] = byte(0x30 + i%0x40)
+		}
+		return modelToPacket(mp)
+	}
 	// count the Write calls of a fault-free run first
 	calls := 0
 	{
@@ -70,6 +82,8 @@ func HarnessC18Write(op, oneShot, plenIdx int) {
 			m2.WriteData(d2)
 		case 2:
 			m2.WritePacket(&Packet{Header: PacketHeader{PID: 0x100, HasPayload: true}, Payload: d2.PES.Data[:100]})
+		case 3:
+			m2.WritePacket(fullPacket())
 		}
 		calls = s2.calls
 	}
@@ -85,6 +99,8 @@ func HarnessC18Write(op, oneShot, plenIdx int) {
 		n, err = m.WriteData(d)
 	case 2:
 		n, err = m.WritePacket(&Packet{Header: PacketHeader{PID: 0x100, HasPayload: true}, Payload: d.PES.Data[:100]})
+	case 3:
+		n, err = m.WritePacket(fullPacket())
 	}
 	vassertK("C18.write.surfaces", "F8", true, err != nil && errors.Is(err, errVInjected))
 	vassert("C18.write.count", n <= len(sink.buf))
